@@ -117,4 +117,12 @@ PROPS = {
         need_events=["messages_on_wire", "retry_scripts"],
         assumptions=TRUST + ["one Write call on the in-memory transport is atomic (contiguous in the log) like write(2) on a socket; a stall is taken while holding the transport's own write lock"],
     ),
+    "C08": dict(
+        level="exploration",
+        rule="scenarios inside testing/synctest bubbles (virtual clock, quiescence detection): K in {1,3,5} connections accepted by Server.Serve over a scripted listener or wrapped with diam.NewConn, each receiving 1..12 numbered requests as one burst, one byte at a time, or as 37-byte fragments interleaved across the connections; handlers return at once, sleep (virtual time), or one handler blocks until the scenario releases it. Online monitor per connection: in-flight counter at handler entry must be 0 and the sequence number must be previous+1; with one handler held, every other connection must have all its messages dispatched at quiescence and the held connection none beyond the held one. distinct_nontrivial counts distinct (K, accepted/dialled, arrival pattern, handler kind) classes.",
+        runs=dict(quick=[race("TestC08", 8)], thorough=[race("TestC08", 16, 3000), plain("TestC08", 8, 3000)]),
+        floor=dict(quick=400, thorough=20000),
+        need_events=["handler_invocations", "blocked_handler_scenarios"],
+        assumptions=TRUST + ["the in-memory transport and listener replace the kernel; quiescence (all goroutines durably blocked) replaces wall-clock waiting"],
+    ),
 }
